@@ -41,7 +41,7 @@ def drive(F3, alg, N, order=0):
         from vlib.rec import call_and_hold
         before = sum(REC.monitors[m]["calls"] + REC.monitors[m]["skipped"] for m in DECIDING)
         approx_first = len(calls) == 7
-        results = call_and_hold(calls, "C03.returned_object_stable")
+        results = call_and_hold(calls, "C03.returned_object_stable", hostile_caller=(order % 5 == 1))
         if sum(REC.monitors[m]["calls"] + REC.monitors[m]["skipped"] for m in DECIDING) == before and N >= 4 and not approx_first:
             # no RotobjVoronoi behind this grid: the property covers every direction grid with N >= 4, judge from the grid's own points
             REC.notes["C03 judged at the grid level (no RotobjVoronoi behind the grid)"] += 1
